@@ -153,6 +153,25 @@ CLAIMS.update({
    note='libm vs. std accuracy (each within a few ulp) is trusted; ill-conditioned outputs (winding on the boundary, radius-scaled arcs) compared at documented tolerances.',
    ref='6 / C19'),
 })
+# additions of the continuation round (DESIGN.md section 12): appended to the text / note of the property
+ADD_TEXT = {
+ 'C01': ' Continuation (Proofs/C01P.lean): a solver-free specification rayCross (signed crossings of the closed leftward ray, half-open rule) and, over R, PathSeg.winding s p = rayCross s.eval p 0 1 for EVERY line, quadratic and cubic and every point (no solver hypothesis left), pathWinding = sum of the crossing counts for every element list; split / degree-raise / reverse / same-eval invariance and the vertex/extremum-row rule (winding_join) as corollaries.',
+ 'C04': ' Continuation (Proofs/C04C.lean): first coverage theorems joining the stroker model with the winding model: for one segment with butt caps the outline is the exact rectangle and pathWinding(outline, q) = 1 iff q projects into the open segment at distance < w/2 (else 0) for every q off the outline; the same for square caps on the extended rectangle; two segments with a bevel join: exact outlines for both turn directions, every point of the open rectangle of either segment has winding >= 1 and winding >= 0 everywhere.',
+ 'C07': ' Continuation (Kurbo/PathMut.lean, Proofs/C07M.lean): the BezPath mutators (push/pop/truncate/extend/move_to/line_to/quad_to/curve_to/close_path/from_vec/apply_affine with their debug assertions) as a state machine tied to the crate on random histories; refinement to list operations, history-independence of segments/get_seg, exact panic conditions.',
+ 'C10': ' Continuation (Proofs/C10A.lean): arc_within_tolerance - for every circular arc and EVERY tolerance every point of every piece of Arc::append_iter is within T of the circle (before only R/T >= 13997), hence all rounded-rectangle corners and circle-segment arcs.',
+ 'C12': ' Continuation (Proofs/C12S.lean): the shape-image clause over R - (A*e).pts = A(e.pts) for ellipses and circles (the SVD as a statement about points), and arc_image_param: for det A != 0 and positive radii the point of A*arc at start\'+s*sweep\' is A applied to the point of arc at start+s*sweep for every real s (image traversed in the image direction).',
+ 'C15': ' Continuation (Kurbo/Quartic.lean, Proofs/C15Q.lean): the general path of solve_quartic (factor_quartic_inner with LDL^T candidates, noise guard, candidate selection, Newton polish, rescaling retries, depressed_cubic_dominant) is now in the model and agrees with the crate bit for bit on every quartic compared; in exact arithmetic with an exact resolvent root it returns exactly the real roots (solveQuartic_general_exact_real), the Newton loop never increases eps_t, and d_2 > 0 means no real root except a possible double root at -l_2.',
+ 'C16': ' Continuation: BezPath::write_to is now a model function (Kurbo/SvgWrite.lean) compared byte for byte with the crate, round trip theorems restated for it incl. same segments for every path starting with MoveTo (Proofs/C16W.lean); the arc clause is proved over R for Arc.from_svg_arc (Proofs/C16A.lean): the arc starts at the current point, ends at the stated end point, sweep sign = sweep flag, |sweep| > pi iff large-arc (when the radii fit).',
+}
+ADD_NOTE = {
+ 'C03': ' Second-tier translation (GenEquiv2): QuadBez::arclen is re-translated from the source on every run and proved equal to the hand-written model.',
+ 'C05': ' Second-tier translation (GenEquiv2): approx_parabola_integral, approx_parabola_inv_integral, determine_subdiv_t.',
+ 'C10': ' Second-tier translation (GenEquiv2): point_on_circle, rotate_pt, sample_ellipse, CircleSegment arcs, Affine::svd, Ellipse::{private_new,center,radii,radii_and_rotation}, RoundedRectRadii::{abs,clamp}.',
+ 'C11': ' Second-tier translation (GenEquiv2): Triangle::{area,perimeter,bounding_box}, Circle::{area,perimeter,winding}, CircleSegment::{area,perimeter,winding}, Ellipse::{area,winding,bounding_box,radii}, Affine::svd.',
+ 'C12': ' Second-tier translation (GenEquiv2): Affine::svd, Affine*Ellipse, Affine*Arc. Observation (theorem arc_image_mixed_radii, confirmed on the crate): an Arc whose radii have opposite signs is mapped to an arc traversed the wrong way - radii are magnitudes in the quantifier, documented only.',
+ 'C15': ' The hypothesis left in the quartic theorems: depressed_cubic_dominant returns a root of its cubic. Float cbrt of the model is now correctly rounded (as the crate\'s).',
+ 'C17': ' Second-tier translation (GenEquiv2): Line::crossing_point.',
+}
 PENDING = set()
 for _p in PENDING:
     CLAIMS.pop(_p, None)
@@ -166,8 +185,8 @@ def main():
             checks.append(dict(property_id=pid, quick_cmd=f'./check {pid} quick', thorough_cmd=f'./check {pid} thorough',
                                evidence_file=f'evidence/{pid}.json', replay_cmd_template=f'./check {pid} --replay {{path}}',
                                engine='lean-proofs+kmodel+kvh',
-                               level_claimed=dict(category='proof', text=c['text'], design_ref=c['ref']),
-                               level_note=c['note'], technique=TECH))
+                               level_claimed=dict(category='proof', text=c['text'] + ADD_TEXT.get(pid, ''), design_ref=c['ref']),
+                               level_note=c['note'] + ADD_NOTE.get(pid, ''), technique=TECH))
     na = [dict(property_id=p, reason=NA.get(p, 'not yet built in this round (work in progress; see DESIGN.md section 10)')) for p in ids if p not in CLAIMS]
     m = dict(version=1, setup_cmd='./setup',
              hooks=dict(guard='kurbo_verif', enable='RUSTFLAGS="--cfg kurbo_verif" (set by ./check when it builds the harness for C14)',
